@@ -17,6 +17,11 @@ whole (load, hour) sequence for several horizons; (2) arbitrary monthly arrays t
 `process_month_loads` vs the model; (3) the translated calendar vs the real functions.
 Predicate: exact month sums of the input profile vs the signed month integrals of the
 implementation's `load`/`hour` arrays.
+Glue streams (every tier): call-history sequences of HybridLoad objects with different load years;
+real GHE objects (GHE.__init__, start months 1/2/4/7/12, leap load years with load on 29 Feb and
+31 Dec) inspected before and after simulate(HYBRID)/size — arrays bitwise unchanged, C06 and the C08
+axis predicate still hold; real design searches (DesignNearSquare / DesignRectangle) with explicit
+load_years — the returned GHE's hybrid load carries the requested years and the input's monthly energy.
 """
 from __future__ import annotations
 
@@ -69,7 +74,7 @@ def classify_arrays(load, hour, ms, mt, start, end, year=2019):
     ok = 0
     j = 1
     for i, got in zip(range(start, end + 1), ints):
-        m = (i - 1) % 12
+        m = (i - 1) % len(ms)
         want = ms[m]["net"]
         while hour[j] != float(H.oracle_month_end(i, year)) or j < 2:
             j += 1
@@ -77,7 +82,7 @@ def classify_arrays(load, hour, ms, mt, start, end, year=2019):
         if abs(float(got - want)) <= tol_month(ms[m]):
             ok += 1
             continue
-        r = mt[m]
+        r = mt[(i - 1) % len(mt)]
         retained = H.ipf(i, start, end)
         noon_c = (H.oracle_month_end(i - 1, year) + 1) + 24 * r["dayc"] + 12
         noon_h = (H.oracle_month_end(i - 1, year) + 1) + 24 * r["dayh"] + 12
@@ -139,6 +144,107 @@ def history_stream(ctx, phys, n_seq):
                     ctx.finding("history-horizon-energy", f"history sequence {q}, call {pos}: HybridLoad(years=[{y}], {n} months): total {float(tot)} kWh "
                                 f"vs the profile's {float(want)} kWh", replay)
     ctx.count("history:sequences", len(seqs))
+
+
+def _object_predicates(ctx, label, snap, ms, start, end, years, replay, prefix):
+    """C06 month-energy predicate + C08 axis predicate on one snapshot of a hybrid load."""
+    import c08
+
+    mt = H.month_table(snap["monthly"])
+    yr = years if len(years) > 1 else years[0]
+    ok, fails = classify_arrays(snap["load"], snap["hour"], ms, mt, start, end, year=yr)
+    for key, month, got, want, detail in fails:
+        ctx.count(prefix + "fail:" + key)
+        what = f"{label}: " + (str(detail) if month is None else
+                               f"month {month} integrates to {float(got):.6f} kWh, the input's net load is {float(want):.6f} kWh")
+        ctx.finding(key if key in ("same-day-pulse-clamped", "degenerate-duration") else prefix + key, what, dict(replay, detail=detail))
+    recs = [(r["pcl"], r["phl"], r["dayc"], r["dayh"], r["dcl"], r["dhl"]) for r in mt]
+    if len(recs) == 12 and all(math.isfinite(x) for x in snap["load"] + snap["hour"]):
+        c08.axis_predicate(ctx, label, snap["load"], snap["hour"], recs, start, end, replay, year=yr, key_prefix=prefix + "axis-")
+    return ok, fails
+
+
+def ghe_history_stream(ctx, phys, n):
+    """The hybrid load as held by a real GHE (built through GHE.__init__, incl. leap load years with
+    non-zero load on 29 February and 31 December, and start months other than January), before and
+    after simulate(HYBRID) / size: the arrays must stay bitwise the same and keep satisfying C06/C08."""
+    rng = ctx.rng
+    jobs = []
+    fixed = [(4, 27, [2019]), (1, 24, [2020]), (1, 12, [2019]), (2, 13, [2019]), (7, 30, [2021]), (12, 36, [2019]), (1, 13, [2020]), (4, 15, [2020])]
+    for k in range(n):
+        start, end, years = fixed[k] if k < len(fixed) else (rng.choice([1, 2, 4, 7, 12]), 0, [rng.choice([2019, 2020, 2021])])
+        if k >= len(fixed):
+            end = start + rng.choice([0, 5, 11, 12, 23, 26])
+        jobs.append({"phys": phys, "seed": rng.randrange(1 << 30), "start": start, "end": end, "years": years,
+                     "hours": 8784 if years[0] % 4 == 0 else 8760})
+    outs = core.pool_map(H.run_ghe_history, jobs)
+    for a, o in zip(jobs, outs):
+        label0 = f"GHE(start_month={a['start']}, end_month={a['end']}, load_years={a['years']}, {a['hours']}-hour profile)"
+        ctx.count(f"ghe-history:start-{a['start']}/years-{a['years'][0]}")
+        replay = {"builder": "hybridlib.run_ghe_history", "args": {k: v for k, v in a.items() if k != "phys"}, "phys": a["phys"],
+                  "calls": "GHE(...); then simulate(HYBRID), simulate(HYBRID), size(HYBRID) on the same object; hybrid_load inspected after each"}
+        if "raise" in o:
+            ctx.case(("ghe-history", a["start"], a["end"], a["years"][0], a["seed"]), False)
+            ctx.finding("ghe-history-raise", f"{label0} raised {o['raise']}", replay)
+            continue
+        raw = H.wave_profile(a["seed"], a["hours"])
+        ms = H.month_sums(raw, a["years"][0])
+        first = o["steps"][0][1]
+        for k, (name, snap) in enumerate(o["steps"]):
+            label = f"{label0} after {[n for n, _ in o['steps'][1:k + 1]] or 'construction'}"
+            ctx.case(("ghe-history", a["start"], a["end"], a["years"][0], a["seed"], k), True,
+                     {"ghe_history": label0, "steps": [n for n, _ in o["steps"]]} if k == len(o["steps"]) - 1 and len(ctx.samples) < 6 else None)
+            if snap["years"] != list(a["years"]):
+                ctx.finding("ghe-history-years", f"{label}: hybrid_load.years = {snap['years']}", dict(replay, step=k))
+            if k > 0 and (snap["hour"] != first["hour"] or snap["load"] != first["load"] or snap["monthly"] != first["monthly"]):
+                j = next((j for j, (x, y) in enumerate(zip(snap["hour"], first["hour"])) if x != y), None)
+                ctx.finding("ghe-history-arrays-changed", f"{label}: hybrid_load arrays are no longer those of the freshly built object"
+                            + (f" (hour[{j}] = {snap['hour'][j]} was {first['hour'][j]})" if j is not None else ""), dict(replay, step=k))
+            ok, fails = _object_predicates(ctx, label, snap, ms, a["start"], a["end"], a["years"], dict(replay, step=k), "ghe-history-")
+            ctx.count("ghe-history:months-conserved", ok)
+            if fails:
+                break
+
+
+def design_search_stream(ctx, phys, n):
+    """Real design searches (cheap lots) through DesignNearSquare / DesignRectangle with explicit
+    load_years: the hybrid load of the RETURNED GHE must carry the requested years and the input's
+    energy month by month."""
+    rng = ctx.rng
+    base = [
+        {"design": "NEARSQUARE", "years": [2018, 2019], "hours": 8760, "months": 24, "second_year_factor": 0.5},
+        {"design": "RECTANGLE", "years": [2020], "hours": 8784, "months": 24},
+        {"design": "NEARSQUARE", "years": [2020], "hours": 8784, "months": 13},
+        {"design": "RECTANGLE", "years": [2021, 2022], "hours": 8760, "months": 24, "second_year_factor": 1.7},
+        {"design": "NEARSQUARE", "years": [2019], "hours": 8760, "months": 12},
+    ]
+    jobs = []
+    for k in range(n):
+        j = dict(base[k % len(base)])
+        j.update(phys=phys, seed=rng.randrange(1 << 30))
+        jobs.append(j)
+    outs = core.pool_map(H.run_design_search, jobs)
+    for a, o in zip(jobs, outs):
+        label = f"{a['design']} design search, load_years={a['years']}, {a['months']} months: hybrid load of the returned GHE"
+        replay = {"builder": "hybridlib.run_design_search", "args": {k: v for k, v in a.items() if k != "phys"}, "phys": a["phys"]}
+        ctx.count(f"design-search:{a['design']}/years-{'+'.join(map(str, a['years']))}")
+        if "raise" in o:
+            ctx.case(("design-search", a["design"], tuple(a["years"]), a["seed"]), False)
+            ctx.finding("design-search-raise", f"{label}: the search raised {o['raise']}", replay)
+            continue
+        ctx.case(("design-search", a["design"], tuple(a["years"]), a["seed"]), True,
+                 {"design_search": a["design"], "years": a["years"], "boreholes": o["n_boreholes"]} if len(ctx.samples) < 6 else None)
+        snap = o["returned"]
+        if snap["years"] != list(a["years"]):
+            ctx.finding("design-search-years", f"{label}: hybrid_load.years = {snap['years']} instead of the requested {a['years']}", replay)
+        raw = H.wave_profile(a["seed"], a["hours"], a.get("second_year_factor"))
+        ny = len(a["years"])
+        ms = H.month_sums(raw, a["years"] if ny > 1 else a["years"][0], 12 * ny)
+        # judge the sequence against the REQUESTED calendar and the input, whatever the object says about itself
+        if len(snap["monthly"]) < 12 * ny:
+            snap = dict(snap, monthly=(snap["monthly"] * ny)[:12 * ny])
+        ok, _ = _object_predicates(ctx, label, snap, ms, 1, a["months"], a["years"], replay, "design-search-")
+        ctx.count("design-search:months-conserved", ok)
 
 
 def run(ctx: core.Ctx):
@@ -227,6 +333,10 @@ def run(ctx: core.Ctx):
 
     # ------------------------------------------------------------------ call history (several objects in one process)
     history_stream(ctx, physs[0], 8 if quick else 40)
+
+    # ------------------------------------------------------------------ the glue: GHE.__init__/simulate/size and design searches
+    ghe_history_stream(ctx, physs[0], 8 if quick else 40)
+    design_search_stream(ctx, physs[0], 5 if quick else 20)
 
     # ------------------------------------------------------------------ arbitrary monthly arrays
     arr = H.explore_process_only(ctx, 300 if quick else 6000)
